@@ -159,7 +159,7 @@ impl Prop for C18 {
         vec![
             "only mappings of deleted (unlinked temp) files and /proc/self/fd entries are counted, so allocator or thread-pool mappings cannot raise an alarm".into(),
             "the check runs single-threaded (process-wide /proc state)".into(),
-            "fault injection = RLIMIT_AS and vm.max_map_count exhaustion in a child process; other mmap failure causes are not injected".into(),
+            "fault injection = RLIMIT_AS, vm.max_map_count exhaustion and RLIMIT_NOFILE (no descriptor for the backing file) in a child process; other failure causes are not injected".into(),
         ]
     }
     fn extra(&self, tier: Tier, seed: u64, ev: &mut Extra) {
@@ -209,6 +209,30 @@ impl Prop for C18 {
                         ));
                     }
                 }
+            }
+        }
+        // no descriptor left for the backing file
+        for size in [4096usize, 65536, 1 << 20] {
+            let args = vec!["child".to_string(), "nofile".into(), size.to_string()];
+            let (code, out) = run_child(&args, 60);
+            ev.evaluations += 1;
+            let cj = json!({"child": args});
+            match (code, parse_child(&out)) {
+                (Some(0), Some(v)) => {
+                    ev.nontrivial_hashes.insert(hash_json(&cj));
+                    *ev.classes.entry("nofile-injected-failure".into()).or_default() += 1;
+                    let ok = v["probe_ok"].as_bool() == Some(true) && v["data_ok"].as_bool() == Some(true) && v["after"] == v["base"];
+                    if !ok {
+                        ev.failures.push((
+                            Failure { sig: "C18/fault/nofile".into(), msg: format!("with no descriptor available, Buffer::new({size}) => set-up ok: {}, buffer whole: {}, mappings/fds {} -> {}", v["setup_ok"], v["data_ok"], v["base"], v["after"]) },
+                            cj,
+                        ));
+                    }
+                }
+                (code, _) => ev.failures.push((
+                    Failure { sig: "C18/fault/nofile-child-died".into(), msg: format!("child {args:?} ended with {code:?}: {}", out.chars().take(300).collect::<String>()) },
+                    cj,
+                )),
             }
         }
         {
